@@ -354,7 +354,27 @@ def must_facts(g, modset=None):
             f = Fact(node.x, lab, node.id)
             # the condition's own side effects (assignment inside condition) kill first: handled in tr
             return s | frozenset([f])
+        if node.kind == 'sw' and isinstance(lab, tuple) and lab[0] == 'case' and lab[1] is not None:
+            # edge into `case v:` - the controlling expression equals v (a fall-through from the previous case
+            # reaches the same join without this fact; the join intersects)
+            key = (node.id, lab[1])
+            f = _swfacts.get(key)
+            if f is None:
+                from .front import X
+                c = X('int')
+                c.val = lab[1]
+                c.cty = 'int'
+                c.line = node.x.line
+                b = X('bin')
+                b.op = '=='
+                b.kids = [node.x, c]
+                b.cty = 'int'
+                b.line = node.x.line
+                f = _swfacts[key] = Fact(b, True, node.id)
+                f.key = (node.id, True, lab[1])
+            return s | frozenset([f])
         return s
+    _swfacts = {}
 
     def jn(a, b):
         return a & b
